@@ -60,6 +60,17 @@ def cli():
     return prof, rating
 
 
+def complete_training_set(path):
+    """Usable training-set directory: response plus every continuous
+    feature file (what rating loads)."""
+    from nanite.rate.rater import IndentationRater
+    d = pathlib.Path(path)
+    if not d.is_dir() or not (d / "train_response.txt").exists():
+        return False
+    names = IndentationRater.get_feature_names(which_type="continuous")
+    return all((d / f"train_{n}.txt").exists() for n in names)
+
+
 def afmformats_find(folder):
     import afmformats
     return afmformats.find_data(folder, modality="force-distance")
@@ -329,9 +340,10 @@ class ProfileEngine:
             s["weight_cp"] = rng.choice(["0.5", "1", "0", "0.25"])
         if rng.random() < 0.4:
             seq = []
-            if rng.random() < 0.4:
+            if rng.random() < 0.5:
                 seq.append(rng.choice(["nonexistent_label_xyz",
-                                       "/no/such/dir"]))
+                                       "/no/such/dir", "@incomplete",
+                                       "@incomplete"]))
             seq.append(rng.choice(["zef18", "@copy"]))
             s["training_set"] = seq
         if rng.random() < 0.5:
@@ -374,6 +386,9 @@ class ProfileEngine:
                 ops.append({"op": "legacy"})
             else:
                 ops.append({"op": "setup", "script": self.gen_script(rng)})
+        for op in ops:
+            if op["op"] in ("set", "get", "get_fit_params", "restart"):
+                op["via"] = rng.randrange(3)
         if with_fit:
             ops.append({"op": "fit_perform"})
         data = []
@@ -418,7 +433,10 @@ class ProfileEngine:
         oracle_checks = 0
         wrote = False
         nontrivial = False
-        pf = prof.Profile(path)
+        # several Profile objects are alive at the same time (the batch fit
+        # does the same: its own object plus one per curve)
+        pfs = [prof.Profile(path), prof.Profile(path), prof.Profile(path)]
+        pf = pfs[0]
 
         def viol(rule, site, feats, msg, i):
             return make_violation(self.prop, rule, site, feats, msg, i)
@@ -450,6 +468,9 @@ class ProfileEngine:
             kind = op["op"]
             feats = {"op": kind}
             executed += 1
+            if "via" in op:
+                pf = pfs[op["via"] % len(pfs)]
+                feats["via"] = op["via"] % len(pfs)
             try:
                 with warnings.catch_warnings():
                     warnings.simplefilter("ignore")
@@ -472,7 +493,8 @@ class ProfileEngine:
                             break
                     elif kind == "restart":
                         pf = None
-                        pf = prof.Profile(path)
+                        pfs[op.get("via", 0) % len(pfs)] = prof.Profile(path)
+                        pf = pfs[op.get("via", 0) % len(pfs)]
                         if wrote:
                             nontrivial = True
                         probes["restart"] += 1
@@ -491,7 +513,8 @@ class ProfileEngine:
                         # default applies afterwards
                         ref["preprocessing_options"] = {}
                         feats["fit_param_lines"] = bool(explicit)
-                        pf = prof.Profile(path)
+                        pfs[:] = [prof.Profile(path) for _ in pfs]
+                        pf = pfs[0]
                         # F2 'same values': numbers compare by value (the
                         # text format has no int/float distinction)
                         loaded = pf.load()
@@ -509,7 +532,6 @@ class ProfileEngine:
                                           explicit, scratch, feats, i,
                                           probes)
                         oracle_checks += 1
-                        pf = prof.Profile(path)
                         if v:
                             violation = v
                             break
@@ -632,6 +654,16 @@ class ProfileEngine:
                     shutil.copytree(
                         IndentationRater.get_training_set_path("zef18"), d)
                 a = str(d)
+            elif a == "@incomplete":
+                # a directory that has the response file but lacks one of
+                # the feature files: not a usable training set
+                from nanite.rate.rater import IndentationRater
+                d = scratch / "ts_incomplete"
+                if not d.exists():
+                    shutil.copytree(
+                        IndentationRater.get_training_set_path("zef18"), d)
+                    (d / "train_feat_con_apr_sum.txt").unlink()
+                a = str(d)
             ts.append(a)
         if ts:
             script["training_set"] = ts
@@ -692,7 +724,7 @@ class ProfileEngine:
         if script.get("weight_cp"):
             ref["weight_cp"] = float(script["weight_cp"]) * 1e-6
         for a in script.get("training_set", []):
-            if a == "zef18" or pathlib.Path(a).is_dir():
+            if a == "zef18" or complete_training_set(a):
                 ref["rating training set"] = a
                 break
         if script.get("regressor") is not None:
